@@ -62,5 +62,8 @@ pub mod stdx {
                 forall|x: T| #[trigger] final(s)@.contains(x) <==> old(s)@.contains(x),
                 old(s)@.no_duplicates() ==> final(s)@.no_duplicates(),
                 forall|i: int, j: int| #![trigger final(s)@[i], final(s)@[j]] 0 <= i < j < final(s)@.len() ==> exists|o: std::cmp::Ordering| #[trigger] f.ensures((&final(s)@[i], &final(s)@[j]), o) && o != std::cmp::Ordering::Greater;
+
+    pub assume_specification<T, A: Allocator> [ std::collections::VecDeque::<T, A>::is_empty ] (v: &std::collections::VecDeque<T, A>) -> (r: bool)
+        ensures r == (v@.len() == 0);
 }
 } // verus!
